@@ -77,12 +77,33 @@ pub struct Mismatch {
     pub got: String,
     pub want: String,
     pub count: usize,
+    /// expected logical value at `row` (value mismatches only)
+    pub want_b: Option<bool>,
+}
+
+/// Attribution of a value mismatch at (row pattern, haystack `h`), decided by re-running the kernel on
+/// minimal columns: "" = the plain reference encoding (Utf8 / Binary, one row) is wrong too, i.e. the
+/// defect is not encoding specific; ":enc=X" = only encoding X is wrong even on a minimal column;
+/// ":context-dependent" = minimal columns are right, so the failure needs the surrounding rows / layout
+/// (predicate cache, slicing, null handling).
+pub fn attribute(col: &Col, table: &[Vec<u8>], h: Option<u32>, want: Option<bool>, run: &dyn Fn(&Col) -> Option<Option<bool>>) -> String {
+    let Some(h) = h else { return ":null-row".into() };
+    let refk = if col.kind.is_str() { Kind::Utf8 } else { Kind::Binary };
+    let rc = make_col(refk, Dict::None, Layout::Compact, table, &[h], false, "");
+    if run(&rc) != Some(want) {
+        return String::new();
+    }
+    let sc = make_col(col.kind, col.dict, Layout::Compact, table, &[h], col.pat_dict, "");
+    if run(&sc) != Some(want) {
+        return format!(":enc={}", col.enc_class());
+    }
+    ":context-dependent".into()
 }
 
 /// Compare a kernel result against the per-row expectation.
 /// Err(("wf"| "err" | "panic" | "len" | "value", detail))
 pub fn check_bool(res: Result<Result<BooleanArray, ArrowError>, vcore::PanicInfo>, n: usize, want: impl Fn(usize) -> Option<bool>) -> Result<(), (String, Mismatch)> {
-    let mm = |row, got: String, want: String, count| Mismatch { row, got, want, count };
+    let mm = |row, got: String, want: String, count| Mismatch { row, got, want, count, want_b: None };
     let arr = match res {
         Err(p) => return Err((p.fingerprint(), mm(0, format!("panic {p:?}"), "a result".into(), 1))),
         Ok(Err(e)) => return Err(("unexpected-error".into(), mm(0, format!("Err({e})"), "Ok".into(), 1))),
@@ -102,7 +123,9 @@ pub fn check_bool(res: Result<Result<BooleanArray, ArrowError>, vcore::PanicInfo
         if got != w {
             count += 1;
             if first.is_none() {
-                first = Some(mm(r, format!("{got:?}"), format!("{w:?}"), 0));
+                let mut m = mm(r, format!("{got:?}"), format!("{w:?}"), 0);
+                m.want_b = w;
+                first = Some(m);
             }
         }
     }
@@ -115,18 +138,60 @@ pub fn check_bool(res: Result<Result<BooleanArray, ArrowError>, vcore::PanicInfo
     }
 }
 
-fn fp(kind: &str, opfam: &str, form: &str, shape: &str, enc: Option<String>) -> String {
-    let base = match kind {
-        "value" => format!("c20:{opfam}:{form}:{shape}"),
+/// evaluation strategy class of a pattern shape (mirrors Eq / StartsWith / EndsWith / Contains / Regex)
+pub fn strategy(shape: &str) -> String {
+    let esc = shape.contains("+esc") || shape.contains("+trailing-backslash");
+    let base = if shape.starts_with("literal") {
+        "literal"
+    } else if shape.starts_with("prefix%") {
+        "prefix%"
+    } else if shape.starts_with("%suffix") {
+        "%suffix"
+    } else if shape.starts_with("%infix%") {
+        "%infix%"
+    } else if shape == "null-pattern" {
+        "null-pattern"
+    } else {
+        "wildcard"
+    };
+    format!("{base}{}", if esc { "+esc" } else { "" })
+}
+
+/// class-level fingerprint: c20:like:<strategy>[:<failing op/form subset>][:enc=.. | :context-dependent]
+fn fp(kind: &str, opfam: &str, form: &str, shape: &str, which: &str, enc: &str) -> String {
+    match kind {
+        "value" => format!("c20:like:{}{which}{enc}", strategy(shape)),
         "wf" => format!("wf:c20:{opfam}:{form}"),
         "len" => format!("c20:{opfam}:{form}:wrong-length"),
-        "unexpected-error" => format!("c20:{opfam}:{form}:{shape}:unexpected-error"),
+        "unexpected-error" => format!("c20:{opfam}:{form}:{}:unexpected-error", strategy(shape)),
         p => format!("c20:{opfam}:{form}:{p}"),
-    };
-    match enc {
-        Some(e) => format!("{base}:enc={e}"),
-        None => base,
     }
+}
+
+/// Which of {like, ilike} x {scalar, array} are wrong for (pattern, haystack) on a one-row plain Utf8
+/// column: "" when all four (or none) are, else ":<list>".
+fn failing_subset(alpha: &Alpha, pat: &str, hay: &[u8]) -> String {
+    let toks = tokenize(alpha, pat);
+    let ids = alpha.ids(std::str::from_utf8(hay).unwrap());
+    let table = vec![hay.to_vec()];
+    let c1 = make_col(Kind::Utf8, Dict::None, Layout::Compact, &table, &[0], false, "");
+    let mut wrong = vec![];
+    for (k, name) in [(0usize, "like"), (1, "ilike")] {
+        let want = like_match(alpha, &toks, &ids, k == 1);
+        for (form, fname) in [(0, "scalar"), (1, "array")] {
+            let r = if form == 0 {
+                catch(|| call_like(k, &c1.arr, &scalar_datum(&c1, pat.as_bytes())))
+            } else {
+                let pa = make_pat_array(&c1, &[Some(pat.as_bytes())]);
+                catch(|| call_like(k, &c1.arr, &pa))
+            };
+            let ok = matches!(r, Ok(Ok(a)) if a.len() == 1 && a.is_valid(0) && a.value(0) == want);
+            if !ok {
+                wrong.push(format!("{name}-{fname}"));
+            }
+        }
+    }
+    if wrong.is_empty() || wrong.len() == 4 { String::new() } else { format!(":{}", wrong.join("+")) }
 }
 
 pub fn scalar_datum(col: &Col, p: &[u8]) -> Scalar<ArrayRef> {
@@ -136,7 +201,6 @@ pub fn scalar_datum(col: &Col, p: &[u8]) -> Scalar<ArrayRef> {
 struct VariantExp {
     pstr: String,
     alt: String,
-    shape: &'static str,
     alt_toks: Vec<Tok>,
     /// [like, ilike] x table
     exp: [Vec<bool>; 2],
@@ -171,7 +235,7 @@ pub fn run_pattern(w: &LikeWorld, pi: usize, st: &mut Stats, verbose: bool) {
             let nt = if pstr.is_empty() { 0 } else { fam.table.iter().filter(|h| !h.is_empty()).count() as u64 };
             st.add("like", 0, nt);
             st.count("like_distinct_pattern_haystack_pairs", n as u64);
-            let mut ve = VariantExp { pstr, alt, shape: sh, alt_toks, exp, alt_exp: [vec![2u8; n], vec![2u8; n]] };
+            let mut ve = VariantExp { pstr, alt, alt_toks, exp, alt_exp: [vec![2u8; n], vec![2u8; n]] };
             run_variant(w, pi, fi, fam, xf, &mut ve, st, verbose);
         }
     }
@@ -182,8 +246,6 @@ pub fn run_pattern(w: &LikeWorld, pi: usize, st: &mut Stats, verbose: bool) {
 
 #[allow(clippy::too_many_arguments)]
 fn run_variant(w: &LikeWorld, pi: usize, fi: usize, fam: &Family, xf: Xform, ve: &mut VariantExp, st: &mut Stats, verbose: bool) {
-    // whether the reference column of the group (full / ascii) already mismatched for [op][form]
-    let mut ref_bad = [[[false; 2]; 4]; 2];
     let mut ref_seen = [false; 2];
     // cache of pattern columns keyed by (kind, pat_dict, len)
     let mut pat_cache: Vec<(Kind, bool, usize, ArrayRef)> = vec![];
@@ -261,19 +323,36 @@ fn run_variant(w: &LikeWorld, pi: usize, fi: usize, fam: &Family, xf: Xform, ve:
                     );
                 }
                 if let Err((kind, m)) = r {
-                    if is_ref {
-                        ref_bad[grp][op][form] = true;
-                    }
-                    let enc_specific = !is_ref && !ref_bad[grp][op][form];
-                    let enc = if enc_specific { Some(format!("{}{}", col.enc_class(), if col.ascii { ":ascii-column" } else { "" })) } else { None };
                     let opfam = OPS[k];
                     let formn = ["scalar", "array"][form];
-                    let hay = col.rows.get(m.row).copied().flatten().map(|h| show(&fam.table[h as usize]));
+                    let hrow = col.rows.get(m.row).copied().flatten();
+                    let hay = hrow.map(|h| show(&fam.table[h as usize]));
                     let row_pat = if form == 0 || sel(m.row) == 0 { ve.pstr.clone() } else if sel(m.row) == 1 { ve.alt.clone() } else { "<null>".into() };
+                    let row_shape = if row_pat == "<null>" { "null-pattern" } else { shape(&row_pat, &tokenize(&w.alpha, &row_pat)) };
+                    let enc = if kind == "value" && row_pat != "<null>" {
+                        attribute(col, &fam.table, hrow, m.want_b, &|c1: &Col| {
+                            let r = if form == 0 {
+                                catch(|| call_like(op, &c1.arr, &scalar_datum(c1, row_pat.as_bytes())))
+                            } else {
+                                let pa = make_pat_array(c1, &vec![Some(row_pat.as_bytes()); c1.len()]);
+                                catch(|| call_like(op, &c1.arr, &pa))
+                            };
+                            match r {
+                                Ok(Ok(a)) if a.len() > 0 => Some(a.is_valid(0).then(|| a.value(0))),
+                                _ => None,
+                            }
+                        })
+                    } else {
+                        String::new()
+                    };
+                    let which = match (kind.as_str(), hrow) {
+                        ("value", Some(h)) if row_pat != "<null>" => failing_subset(&w.alpha, &row_pat, &fam.table[h as usize]),
+                        _ => String::new(),
+                    };
                     let order = ((pi as u64) << 24) | ((fi as u64) << 20) | ((ci as u64) << 8) | ((op as u64) << 1) | form as u64;
                     st.violate(
                         order,
-                        fp(&kind, opfam, formn, ve.shape, enc),
+                        fp(&kind, opfam, formn, row_shape, &which, &enc),
                         format!(
                             "{}({} column {:?}, {} pattern {:?}) row {}: haystack {} got {} want {} ({} rows differ; family {} variant {})",
                             OPS[op],
@@ -372,7 +451,7 @@ pub fn run_lscalar(alpha: &Alpha, w: &LScalarWorld, hi: usize, st: &mut Stats, v
                 let pstr = pat.map(|p| w.pats[p as usize].clone());
                 st.violate(
                     order_base + (((hi as u64) << 8) | op as u64),
-                    fp(&kd, OPS[k], "array(lhs-scalar)", sh, None),
+                    fp(&kd, OPS[k], "array(lhs-scalar)", sh, ":lhs-scalar", ""),
                     format!("{}(Scalar {:?} as {}, pattern column) row {} pattern {:?}: got {} want {} ({} rows differ)", OPS[op], h, kind.name(), m.row, pstr, m.got, m.want, m.count),
                     || json!({"sub": "like-lscalar", "haystack_index": hi, "haystack": h, "kind": kind.name(), "op": OPS[op], "row": m.row, "pattern": pstr, "got": m.got, "want": m.want}),
                 );
